@@ -66,6 +66,14 @@ def make_pool(rng):
         R.pop('dup_label', None)
         tables['l'].append(L)
         tables['r'].append(R)
+    if rng.random() < 0.3:
+        # the tokenizers' pad characters occur in the data ('#tag', '$5')
+        for k in range(2):
+            for spec, side in ((tables['l'][k], 'l'), (tables['r'][k], 'r')):
+                vals = spec['data'][side + 'attr']
+                for i in range(len(vals)):
+                    if isinstance(vals[i], str) and rng.random() < 0.3:
+                        vals[i] = rng.choice(['#', '$', '#tag ', 'a$b ']) + vals[i] + rng.choice(['', '$', ' #'])
     if rng.random() < 0.35:
         # long values (60-150 tokens) in one table pair: whatever a call learns from unusually long
         # records must not carry over to later calls
